@@ -45,7 +45,7 @@ func runScenario(eng *Engine, sc scenario) (bool, string) {
 	ctx, cancel := context.WithTimeout(context.Background(), 600*time.Second)
 	defer cancel()
 	cmd := exec.CommandContext(ctx, "bash", "-c", fmt.Sprintf("cd %q && go test -overlay %q -vet=off -count=1 -timeout 300s -v -run '^%s$' .", pkgDir, ovFile, sc.Run))
-	cmd.Env = append(os.Environ(), "GOFLAGS=-mod=mod", "GOPROXY=off", "GOSUMDB=off", "GOTOOLCHAIN=local")
+	cmd.Env = append(os.Environ(), "GOFLAGS=-mod=readonly", "GOPROXY=off", "GOSUMDB=off", "GOTOOLCHAIN=local")
 	out, _ := cmd.CombinedOutput()
 	text := string(out)
 	report := fmt.Sprintf("scenario %s (%s)\noutput:\n%s", sc.File, sc.Run, firstLines(text, 30))
